@@ -218,27 +218,32 @@ fn call(i: usize, ins: &[Vec<u8>]) -> String {
 static SCHEDULES: AtomicU64 = AtomicU64::new(0);
 static MISMATCH: Mutex<Option<String>> = Mutex::new(None);
 
-fn explore(pair: (usize, usize), ins: &[Vec<u8>], base: &[String], bound: usize) -> (u64, Option<String>) {
+fn explore(group: &[usize], ins: &[Vec<u8>], base: &[String], bound: usize) -> (u64, Option<String>) {
     SCHEDULES.store(0, Ordering::Relaxed);
     *MISMATCH.lock().unwrap() = None;
     let mut b = loom::model::Builder::new();
     b.preemption_bound = Some(bound);
     b.max_branches = 200_000;
-    b.max_duration = Some(std::time::Duration::from_secs(20));
+    b.max_duration = Some(std::time::Duration::from_secs(30));
     let ins: Vec<Vec<u8>> = ins.to_vec();
     let base: Vec<String> = base.to_vec();
+    let group: Vec<usize> = group.to_vec();
     let res = catch_unwind(AssertUnwindSafe(move || {
         b.check(move || {
             SCHEDULES.fetch_add(1, Ordering::Relaxed);
             let seam = loom::sync::Arc::new(loom::sync::atomic::AtomicUsize::new(0));
             CURRENT.with(|c| *c.borrow_mut() = Some(seam.clone()));
-            let ins2 = ins.clone();
-            let j = pair.1;
-            let h = loom::thread::spawn(move || call(j, &ins2));
-            let r0 = call(pair.0, &ins);
-            let r1 = h.join().unwrap();
+            let mut hs = Vec::new();
+            for &j in &group[1..] {
+                let ins2 = ins.clone();
+                hs.push((j, loom::thread::spawn(move || call(j, &ins2))));
+            }
+            let mut results = vec![(group[0], call(group[0], &ins))];
+            for (j, h) in hs {
+                results.push((j, h.join().unwrap()));
+            }
             CURRENT.with(|c| *c.borrow_mut() = None);
-            for (i, r) in [(pair.0, r0), (pair.1, r1)] {
+            for (i, r) in results {
                 if r != base[i] {
                     let mut m = MISMATCH.lock().unwrap();
                     if m.is_none() {
@@ -304,20 +309,29 @@ fn main() {
     let mut per_pair = serde_json::Map::new();
     let mut mismatches = Vec::new();
     let mut total = 0u64;
-    let only: Option<(usize, usize)> = if args.len() >= 6 && args[3] == "pair" { Some((args[4].parse().unwrap(), args[5].parse().unwrap())) } else { None };
+    // groups: every unordered pair, then triples around hide/reveal and around the decoders
+    let mut groups: Vec<Vec<usize>> = Vec::new();
     for i in 0..N_CALLS {
         for j in i..N_CALLS {
-            if let Some(p) = only {
-                if p != (i, j) {
-                    continue;
-                }
+            groups.push(vec![i, j]);
+        }
+    }
+    for t in [[9usize, 10, 11], [9, 9, 10], [10, 10, 11], [9, 9, 9], [0, 1, 5], [1, 1, 2], [6, 7, 8]] {
+        groups.push(t.to_vec());
+    }
+    let only: Option<Vec<usize>> = if args.len() >= 5 && args[3] == "group" { Some(args[4..].iter().map(|x| x.parse().unwrap()).collect()) } else { None };
+    for g in groups {
+        if let Some(o) = &only {
+            if *o != g {
+                continue;
             }
-            let (n, mm) = explore((i, j), &ins, &base, bound);
-            total += n;
-            per_pair.insert(format!("{} || {}", NAMES[i], NAMES[j]), serde_json::json!(n));
-            if let Some(m) = mm {
-                mismatches.push(serde_json::json!({"pair":[i,j],"names":[NAMES[i],NAMES[j]],"detail":m}));
-            }
+        }
+        let b = if g.len() == 3 { bound.min(2) } else { bound };
+        let (n, mm) = explore(&g, &ins, &base, b);
+        total += n;
+        per_pair.insert(g.iter().map(|i| NAMES[*i]).collect::<Vec<_>>().join(" || "), serde_json::json!(n));
+        if let Some(m) = mm {
+            mismatches.push(serde_json::json!({"pair":g,"names":g.iter().map(|i| NAMES[*i]).collect::<Vec<_>>(),"detail":m}));
         }
     }
     let out = serde_json::json!({
